@@ -455,12 +455,30 @@ def py_hyp(c):
 # the implementation under test
 # --------------------------------------------------------------------------------------------
 
-class _Timeout(Exception):
-    pass
+class _Timeout(BaseException):
+    """Raised by the interval timer; a BaseException so that no `except Exception` of the code under
+    test swallows it.  The timer repeats: an occurrence that lands inside a GC/weakref callback is
+    only printed as "Exception ignored" by the interpreter and the next tick raises again."""
 
 
 def _alarm(signum, frame):
     raise _Timeout()
+
+
+def _arm(seconds):
+    old = signal.signal(signal.SIGALRM, _alarm)
+    signal.setitimer(signal.ITIMER_REAL, seconds, 0.2)
+    return old
+
+
+def _disarm(old=signal.SIG_DFL):
+    while True:
+        try:
+            signal.setitimer(signal.ITIMER_REAL, 0, 0)
+            signal.signal(signal.SIGALRM, old if old is not None else signal.SIG_DFL)
+            return
+        except _Timeout:
+            continue
 
 
 def family(e):
@@ -955,8 +973,7 @@ def evaluate(x, drv, tmpdir):
     r.x = x
     r.status = "ok"
     r.detail = ""
-    old = signal.signal(signal.SIGALRM, _alarm)
-    signal.alarm(6)
+    old = _arm(10)
     try:
         try:
             A = build(x["a"])
@@ -987,9 +1004,11 @@ def evaluate(x, drv, tmpdir):
         except _Timeout:
             r.status = "skip:timeout-comparer"
             return r
+    except _Timeout:            # a late tick between the inner handlers and the disarm
+        r.status = "skip:timeout"
+        return r
     finally:
-        signal.alarm(0)
-        signal.signal(signal.SIGALRM, old)
+        _disarm(old)
     ans = drv.ask({"fn": "compare", "a": r.ca, "b": r.cb})
     if "error" in ans:
         r.status = "skip:driver:" + ans["error"][:80]
@@ -1043,6 +1062,11 @@ def judge(r, sink):
         else:
             sig = "Comparer.accepts_difference." + "+".join(r.cats)
         sink.spec_failure(sig, x, "examined views differ (%s) but compare() returned" % ",".join(r.cats))
+    # every mutation taken from the statement's list must be visible in the examined view (otherwise the
+    # case would test nothing): harness self-check
+    muts = x.get("mut", [])
+    if len(muts) == 1 and muts[0]["op"] in IN_STATEMENT and r.py_eq and ha["named"] and ha["unique"]:
+        sink.corr_mismatch("harness: a mutation from the statement's list left the examined view unchanged", x, muts[0], None)
     # the theorem, instantiated: model ok under the hypotheses => views equal (sanity of the whole chain)
     if domain and r.model == "ok" and not r.py_eq:
         sink.corr_mismatch("theorem compare_sound instantiated (model ok but Python oracle sees a difference)", x, r.cats, "ok")
@@ -1273,6 +1297,14 @@ def shard(seed, idx, n_netlists, deadline_s, tier):
     failures = {}     # signature -> smallest x
 
     def handle(x, tag):
+        try:
+            return handle_(x, tag)
+        except _Timeout:          # a late timer tick: never let it escape as an internal error
+            _disarm()
+            res.dist("skip:timeout")
+            return None
+
+    def handle_(x, tag):
         r = evaluate(x, drv, tmpdir)
         if r.status != "ok":
             res.dist(":".join(r.status.split(":")[:2]))
@@ -1449,7 +1481,7 @@ def run(ctx):
     if ctx.tier == "thorough":
         L.leanchecker(ctx, MODULES)
     n_shards = ctx.scale(16, 48)
-    per = ctx.scale(10, 60)
+    per = ctx.scale(8, 60)
     deadline = ctx.scale(55, 900)
     args = [(ctx.seed, i, per, deadline, ctx.tier) for i in range(n_shards)]
     run_shards(ctx, shard, args)
